@@ -336,7 +336,8 @@ Inductive skind :=
 | KListEmbedded (ckey : string)      (* ListProperty(class): every element that is a mapping is passed to the constructor *)
 | KExtensions (v20 : bool)           (* ExtensionsProperty(spec_version): entries of registered extensions are constructed *)
 | KStixObjects (v20 : bool)          (* ListProperty(STIXObjectProperty(spec_version)): every element is parsed (Bundle.objects) *)
-| KObservables (v20 : bool).         (* ObservableProperty(spec_version): every member is parsed as an observable *)
+| KObservables (v20 : bool)          (* ObservableProperty(spec_version): every member is parsed as an observable *)
+| KDict (v20 : bool).                (* DictionaryProperty(spec_version) itself: only the keys are vetted *)
 
 Record slot := { s_name : ustring; s_required : bool; s_default : bool; s_ref : refkind; s_kind : skind }.
 
@@ -1052,10 +1053,44 @@ Definition struct_list (subf : list (ustring * jvalue) -> M unit) (v : jvalue) :
   | _ => fail K_InvalidValueError     (* not iterable / a str or the keys of a dict are not mappings / empty *)
   end.
 
+(* _get_dict on a value that is not a text: a dict as is, a list of pairs through dict(); None = ValueError.
+   The flag tells whether some key is not a string. *)
+Definition as_dict (v : jvalue) : option (list (ustring * jvalue) * bool) :=
+  match v with
+  | JObj m => Some (m, false)
+  | JArr l => dict_of_pairs l [] false
+  | _ => None
+  end.
+
+(* DictionaryProperty.clean: key length and alphabet per spec version, not empty; values are not looked at *)
+Definition dict_key_ok (v20 : bool) (k : ustring) : bool :=
+  let n := List.length k in
+  (if v20 then Nat.leb 3 n && Nat.leb n 256 else Nat.leb n 250) &&
+  negb (Nat.eqb n 0) &&
+  forallb (fun c => ((48 <=? c) && (c <=? 57)) || ((65 <=? c) && (c <=? 90)) || ((97 <=? c) && (c <=? 122)) ||
+                    (c =? 95) || (c =? 45))%N k.
+
+Definition struct_dict (v20 : bool) (v : jvalue) : M unit :=
+  match v with
+  | JStr _ => may [K_InvalidValueError]                    (* a JSON text: not followed *)
+  | _ =>
+      match as_dict v with
+      | None => fail K_InvalidValueError
+      | Some (_, true) => fail K_InvalidValueError           (* len() / re.match on a key that is not a string *)
+      | Some ([], _) => fail K_InvalidValueError             (* "must not be empty" *)
+      | Some (m, false) => if forallb (fun kv => dict_key_ok v20 (fst kv)) m then ret tt else fail K_InvalidValueError
+      end
+  end.
+
 (* ExtensionsProperty.clean *)
 Definition struct_extensions (exts : list extreg) (subf : cls -> list (ustring * jvalue) -> M unit) (ac : bool) (v : jvalue) : M unit :=
   match v with
-  | JObj m =>
+  | JStr _ => may [K_InvalidValueError]       (* _get_dict on a JSON text: not followed *)
+  | _ =>
+  match as_dict v with
+  | None => fail K_InvalidValueError
+  | Some (_, true) => may [K_InvalidValueError]    (* a key that is not a string *)
+  | Some (m, false) =>
       seq_all (map (fun kv =>
                  match find (fun x => ustr_eqb (x_name x) (fst kv)) exts with
                  | Some x =>
@@ -1071,8 +1106,7 @@ Definition struct_extensions (exts : list extreg) (subf : cls -> list (ustring *
                      else if ac then ret tt
                      else fail K_InvalidValueError                         (* "Can't parse unknown extension type" *)
                  end) m)
-  | JStr _ | JArr _ => may [K_InvalidValueError]       (* _get_dict on a text / a list of pairs: not followed *)
-  | _ => fail K_InvalidValueError
+  end
   end.
 
 Definition parsed_ok (ac : bool) (p : parsed) : bool :=
@@ -1102,8 +1136,13 @@ Definition struct_objects (ver20 ac : bool) (parsef : jvalue -> M parsed) (v : j
 (* ObservableProperty(spec_version).clean *)
 Definition struct_observables (ac : bool) (pof : jvalue -> jvalue -> M parsed) (v : jvalue) : M unit :=
   match v with
-  | JObj [] => fail K_InvalidValueError
-  | JObj m =>
+  | JStr _ => may [K_InvalidValueError]
+  | _ =>
+  match as_dict v with
+  | None => fail K_InvalidValueError
+  | Some (_, true) => may [K_InvalidValueError]
+  | Some ([], _) => fail K_InvalidValueError
+  | Some (m, false) =>
       (* valid_refs = {k: v['type'] ...}: every member must be a dict with a type *)
       if forallb (fun kv => match snd kv with JObj om => mem_key (us "type") om | _ => false end) m then
         let vrefs := JObj (map (fun kv => (fst kv, match snd kv with
@@ -1113,8 +1152,7 @@ Definition struct_observables (ac : bool) (pof : jvalue -> jvalue -> M parsed) (
                                   (match snd kv with JObj om => mem_key (us "custom_properties") om | _ => false end)
                                   (pof (snd kv) vrefs)) m)
       else fail K_InvalidValueError
-  | JStr _ | JArr _ => may [K_InvalidValueError]
-  | _ => fail K_InvalidValueError
+  end
   end.
 
 Fixpoint clean_struct (fuel : nat) (V : variant) (R : registry) (strictext refuse : bool) (classes : list (string * cls)) : cleaner :=
@@ -1152,6 +1190,7 @@ Fixpoint clean_struct (fuel : nat) (V : variant) (R : registry) (strictext refus
                 struct_extensions (if v20 then r_extensions20 R else r_extensions21 R) (fun c m => sub c io m) ac v
             | KStixObjects v20 =>
                 struct_objects v20 ac (fun x => parse V R self strictext refuse nodec x ac io None) v
+            | KDict v20 => struct_dict v20 v
             | KObservables v20 =>
                 struct_observables ac
                   (fun x vr => parse_observable V R self strictext refuse nodec x vr ac false
